@@ -107,10 +107,11 @@ class PROP(PropCheck):
     uses_cli = True      # one scenario runs the real tool from a directory other than the script's
     theorems = ["C19_failure_by_value", "C19_fs_frame", "C19_fs_frame_write", "C19_queries_are_pure", "C19_create_only_if_absent",
                 "C19_write_requires_existing", "C19_append_appends_displayed_form", "C19_read_returns_contents", "C19_get_put_same",
-                "C19_get_put_other", "C19_remove_spec"]
+                "C19_get_put_other", "C19_remove_spec", "C19_history_frame", "C19_history_total", "C19_unrelated_example"]
+    audit_modules = ["C19", "C19b"]
     coq_imports = ["Obs"]
     model_targets = ["theories/Obs.vo"]
-    prop_targets = ["theories/Props/C19.vo"]
+    prop_targets = ["theories/Props/C19.vo", "theories/Props/C19b.vo"]
     harness_mode = "run"
     trusted_base = [
         "Coq 8.16.1 kernel and bytecode VM",
